@@ -209,7 +209,34 @@ CHECKS.update({
         note="Exhaustive in k per scenario; scenarios are a catalogue (small inputs); threaded coders make k a global ordinal."),
 })
 
+CHECKS.update({
+    "C07": dict(
+        engine="hx_mt", category="exploration", design_ref="DESIGN.md section 4 C07, Appendix E",
+        technique="runtime monitoring: ThreadSanitizer and ASan+UBSan builds driven through a pthread --wrap shim (seeded yield/sleep perturbation; serialising randomised scheduler with deadlock/lost-wake-up detection), differential against the single-threaded decoder, hook counters as minimum observations",
+        text="Valid, corrupted and truncated multi-Block files are decoded by lzma_stream_decoder_mt under random thread counts, "
+             "memory limits (with lzma_memlimit_set retry), time-outs, flags, slicings and early lzma_end, in three engines: "
+             "TSan with perturbation at every pthread operation (data races), ASan with the same perturbation, and ASan under "
+             "a serialising scheduler that picks the next thread at every synchronisation point (uniform / PCT / starvation, "
+             "scheduler-chosen time-outs and spurious wake-ups) and reports 'no enabled thread' as deadlock. Output bytes and "
+             "final status must equal the single-threaded decoder's; FAIL_FAST output must be a prefix.",
+        note="Interleavings are sampled, not enumerated; TSan sees only races the executed schedules expose; the serial "
+             "scheduler orders synchronisation operations only. Known finding: behind a BCJ filter the output length at a "
+             "rejected input differs between the two decoders (hold-back buffer), listed by key."),
+    "C08": dict(
+        engine="hx_mt", category="exploration", design_ref="DESIGN.md section 4 C08, Appendix E",
+        technique="runtime monitoring: ThreadSanitizer and ASan+UBSan builds driven through the pthread --wrap shim (perturbation / serialising scheduler with deadlock detection); action-script monitor with prefix-decodability, Block-boundary, progress and lifecycle (early end, re-init) oracles",
+        text="Action scripts (RUN / FULL_FLUSH / FULL_BARRIER / lzma_filters_update / FINISH, early lzma_end, re-initialisation "
+             "with the same or another thread count and block size while workers run) over lzma_stream_encoder_mt with random "
+             "inputs around block_size x threads, in the same three engines as C07. The output must be one Stream decoding "
+             "to the input; a completed FULL_FLUSH must make all input so far decodable; flush/barrier offsets must be Block "
+             "boundaries; no empty or oversized Block; progress never exceeds the input given and finally equals the totals.",
+        note="As C07. progress_out is compared only at the end (a finished but uncopied Block legitimately counts earlier); "
+             "progress is sampled by the calling thread between calls."),
+})
+
 ENGINES += [
+    {"name": "hx_mt", "path": "harness/hx_mt.c", "serves_properties": ["C07", "C08"],
+     "kind_free_text": "threaded-coder monitors on top of harness/sched/sched.c (pthread --wrap shim: chaos perturbation, serialising scheduler)"},
     {"name": "hx_mem", "path": "harness/hx_mem.c", "serves_properties": ["C09", "C10"],
      "kind_free_text": "monitoring / fault-injecting lzma_allocator engines"},
     {"name": "hx_fmt", "path": "harness/hx_fmt.c", "serves_properties": ["C03", "C05", "C16"],
@@ -241,5 +268,4 @@ ENGINES += [
      "kind_free_text": "runtime monitor of the real xz binary against lib/models/xz_naming.py"},
 ]
 
-NOT_APPLICABLE = {p: "check not built yet in this session; the technique applies (see DESIGN.md) and the check is being implemented"
-                  for p in ALL if p not in CHECKS}
+NOT_APPLICABLE = {}
